@@ -32,6 +32,16 @@ def _feeds_dtype(fd) -> bool:
     return False
 
 
+def _feeds_dtype_in(stmt, kh, key) -> bool:
+    for call in ast.walk(stmt):
+        if isinstance(call, ast.Call) and call.args and any(
+                isinstance(a, ast.Attribute) and a.attr == "dtype"
+                and isinstance(a.value, ast.Name) and a.value.id == key
+                for x in call.args for a in ast.walk(x)):
+            return True
+    return False
+
+
 def _numpy_scalar_updater_feeds_dtype(m):
     """where the dtype of a numpy scalar is fed into the key, or None"""
     import sysconfig
@@ -83,6 +93,31 @@ def r_ndarray(c):
                 "PytatoKeyBuilder.update_for_ndarray", f"feeds:{tok}", where,
                 f"the key of a wrapped ndarray does not include {why}: two different "
                 f"arrays get the same persistent key (fed: {fed})")
+    # ... and a numpy INTEGER is interchangeable with the Python int it equals
+    # wherever expressions hold integers (x[1] == x[np.int64(1)], shapes, shifts):
+    # pytools keys both by the same bytes on purpose ("this must match the hash for
+    # numpy integers, since np.int64(1) == 1"); an override that feeds the dtype
+    # has to keep integers on the update_for_int path
+    own = m.cls(KB).methods.get("update_for_numpy_scalar")
+    if own is not None and _feeds_dtype(own):
+        kh_, k_ = own.args.args[1].arg, own.args.args[2].arg
+        ok_int = any(
+            isinstance(i, ast.If) and ast.unparse(i.test) in (
+                f"isinstance({k_}, np.integer)", f"isinstance({k_}, numpy.integer)")
+            and [ast.unparse(s_) for s_ in i.body if not (
+                isinstance(s_, ast.Expr) and isinstance(s_.value, ast.Constant))]
+            == [f"self.update_for_int({kh_}, int({k_}))"]
+            and not any(_feeds_dtype_in(s_, kh_, k_) for s_ in i.body)
+            for i in ast.walk(own))
+        c.check(ok_int, "R18-NDARRAY", "PytatoKeyBuilder.update_for_numpy_scalar",
+                "integers-keyed-like-python-ints", m.loc(m.module_of(own), own),
+                "numpy integers are keyed with their dtype: x[1] and x[np.int64(1)] (equal "
+                "graphs, equal hashes) get different persistent keys")
+    else:
+        c.ok("R18-NDARRAY", "PytatoKeyBuilder.update_for_numpy_scalar",
+             "integers-keyed-like-python-ints", where,
+             "no dtype-feeding override: pytools keys numpy integers like Python ints",
+             nontrivial=False)
     # contents in logical (C) order: the bytes must not depend on the memory layout
     tb = [x for x in ast.walk(fd) if isinstance(x, ast.Call) and isinstance(x.func, ast.Attribute)
           and x.func.attr == "tobytes"]
